@@ -64,6 +64,21 @@ static int times_freed(void *p)
 			return watch_freed[i];
 	return -1;
 }
+#if defined(TRACK_CALLOC)
+/* call states: the only calloc() of the step is call_function()'s argument vector - watch it */
+static void *last_calloc;
+static int n_calloc;
+static void *v_calloc(size_t a, size_t b)
+{
+	void *p = calloc(a, b);
+
+	n_calloc++;
+	last_calloc = p;
+	watch(p);
+	return p;
+}
+#define calloc v_calloc
+#endif
 #ifdef __CPROVER__
 /* realloc() is only used by confuse.c to grow the value vector (an array of pointers).  CBMC's
  * built-in model copies byte-wise, which turns every stored pointer into a byte-extract expression
@@ -115,6 +130,7 @@ static char *v_strdup8(const char *s)
 #define free v_free
 #include "confuse.c"
 #undef free
+#undef calloc
 #define VM_NO_STRNDUP
 #define VM_STRTOD_CONTRACT
 #include "libc_models.h"
